@@ -1,9 +1,10 @@
-\* exhaustive, parameters focus: block > 2 components (shared definitions), nesting 3, all keep-sets (thorough)
-CONSTANTS N = 3  Par = {"p", "q"}  NVal = 2  NGrid = 2  MaxDepth = 3  MaxLevel = 5
+\* edge emission, database family on the smallest test reactor: write, load, loadReadOnly, deep copies of assemblies (quick)
+CONSTANTS N = 42  Par = {"p", "q"}  NVal = 2  NGrid = 2  MaxDepth = 1  MaxLevel = 5
           GridSlot = "stack"  PickleSerial = "fresh"  DbSerial = "max"
-CONSTANTS Keeps <- KeepsFull  Acts <- ActsParams  Parent0 <- ParentA  Cls0 <- ClsA
+CONSTANTS Keeps <- KeepsNone  Acts <- ActsDbR  Parent0 <- ParentR  Cls0 <- ClsR
           ParOf <- McParOf  GridCls <- McGridCls  MatCls <- McMatCls
-          DbCls <- McDbCls  CopyCls <- McAllCls  CallsOf <- McCallsOf
+          DbCls <- RDbCls  CopyCls <- RCopyCls  CallsOf <- NoCalls
+ACTION_CONSTRAINT EmitDb
 INIT Init
 NEXT Next
 CONSTRAINT Bound
